@@ -307,6 +307,13 @@ def run(ctx):
     if ctx.get('replay'):
         rp = json.load(open(ctx['replay']))
         rep = rp.get('replay') or {}
+        if rep.get('kind') in ('confusable', 'script'):
+            from props import c06x
+            x = c06x.run_extra(rng, tier, only=rep)
+            if x['errors']:
+                return dict(infra_error='; '.join(x['errors']))
+            return dict(evaluations=x['evaluations'], distinct_nontrivial=x['nontrivial'], rule='replay',
+                        samples=x['samples'], violations=x['violations'], disagreements=x['disagreements'])
         if rep.get('kind') == 'meta':
             recs, metaB, errors = explore([], [], 1, 120)
             recs, metaB, errors = explore([gen_case(rng)], [rep['meta']], 1, 120)
@@ -325,11 +332,21 @@ def run(ctx):
     n = 150 if tier == 'quick' else 2000
     cases = [gen_case(rng) for _ in range(n)]
     metas = [[enc_dt(s), enc_td(d)] for s, d in gen_meta(rng)]
-    recs, metaB, errors = explore(cases, metas, 14, 50 if tier == 'quick' else 800)
+    # the confusable-task and __main__-script families (props/c06x.py) run alongside
+    import threading
+    from props import c06x
+    xbox = {}
+    xrng = random.Random(seed * 1000003 + 66)
+    xth = threading.Thread(target=lambda: xbox.update(c06x.run_extra(xrng, tier)))
+    xth.start()
+    recs, metaB, errors = explore(cases, metas, 12, 50 if tier == 'quick' else 800)
+    xth.join()
     infra = [r for r in recs if r.get('infra')]
-    if errors or infra:
-        return dict(infra_error='; '.join(errors + [r['infra'] for r in infra[:2]]))
+    if errors or infra or xbox.get('errors') or 'violations' not in xbox:
+        return dict(infra_error='; '.join(errors + [r['infra'] for r in infra[:2]] + xbox.get('errors', ['extra families did not finish'])))
     viol, dis = evaluate(recs, metaB)
+    viol = xbox['violations'] + viol
+    dis = xbox['disagreements'] + dis
     if (dis or not ctx['proof_ok']) and not viol:
         rng2 = random.Random(seed * 7919 + 61)
         recs2, metaB2, _ = explore([gen_case(rng2) for _ in range(n * 3)], [], 16, 900)
@@ -339,7 +356,7 @@ def run(ctx):
         recs += recs2
     nontrivial = [r for r in recs if r['loaded2']]
     dist = dict(
-        histories=len(recs), backend_pairs={}, meta_round_trips=len(metaB),
+        histories=len(recs), backend_pairs={}, meta_round_trips=len(metaB), **xbox['dist'],
         observation_none_start_or_duration=sorted({str(m['got'][0])[:70] for m in metaB
                                                    if (m['saved'][0] is None or m['saved'][1] is None)}),
         second_run_hash_seeds=sorted({r.get('hashseed') for r in recs})[:20],
@@ -352,9 +369,10 @@ def run(ctx):
         k = r['case']['b1'] + '->' + r['case']['b2']
         dist['backend_pairs'][k] = dist['backend_pairs'].get(k, 0) + 1
     return dict(
-        evaluations=len(recs) + len(metaB), distinct_nontrivial=len({json.dumps(r['case'], sort_keys=True) for r in nontrivial}),
-        rule='generated two-run histories (8 tasks with dependencies over 3 types / 2 cache classes, first run serial|fork|spawn, second run in a fresh interpreter with another PYTHONHASHSEED and another backend, second request equal / different / superset) + save/load round trips of generated start/duration pairs; non-trivial = the second run served at least one task from the cache',
-        samples=[dict(case=r['case'], real=r['real']) for r in nontrivial[:2]],
+        evaluations=len(recs) + len(metaB) + xbox['evaluations'],
+        distinct_nontrivial=len({json.dumps(r['case'], sort_keys=True) for r in nontrivial}) + xbox['nontrivial'],
+        rule='generated two-run histories (8 tasks with dependencies over 3 types / 2 cache classes, first run serial|fork|spawn, second run in a fresh interpreter with another PYTHONHASHSEED and another backend, second request equal / different / superset) + save/load round trips of generated start/duration pairs; + sequences of ==-equal-but-differently-typed (confusable) tasks constructed and run one after the other in one process, re-checked in a fresh interpreter + a generated __main__ script (task classes defined in the script) run twice with spawn first / spawn second; non-trivial = the second run served at least one task from the cache',
+        samples=[dict(case=r['case'], real=r['real']) for r in nontrivial[:2]] + xbox['samples'],
         violations=viol[:5], disagreements=dis[:5], distribution=dist,
         assumptions=['distinct tasks have distinct cache keys (C07; the recorded finding F07 is outside this universe)',
                      'durations up to ~10 years (float seconds keep microsecond precision up to ~140 years)',
